@@ -1,7 +1,7 @@
 """C14 bounded stand-in: transferable keys survive export and import with their structure intact.
 
 The module also carries the key-building helper (`Build`) and the independent transferable-key oracle
-(`split_tpk`, `verify_tpk`, `obj_struct`) shared by bounded.histories, bounded.usage and bounded.pubexport.
+(`split_tpk`, `verify_tpk`, `struct_map`, `obj_map`) shared by bounded.histories, bounded.usage and bounded.pubexport.
 Everything that says "independent" uses specs/indep.py (RFC 4880 reader written from the RFC text) on the
 exported octets; nothing in the oracle calls pgpy.
 """
@@ -872,6 +872,7 @@ def run_concat(group, idx):
 
 def _worker(args):
     warnings.simplefilter('ignore')
+    fast_s2k()
     chunk, tier, widx = args
     out, exports = [], []
     for desc in chunk:
@@ -988,6 +989,7 @@ def component(tier='quick', seed=0, known=()):
             'signatures_verified_independently': nsigs,
             'samples': samples,
             'failure_classes': failure_classes[:12],
+            'notes': 'worker processes lower the S2K iteration-count octet that PGPKey.protect uses (HashAlgorithm._tuned_count, a data attribute: 255 -> 96) to keep protect/unlock cheap; no pgpy code is replaced',
             'violations': violations,
             'known_hits': known_hits}
 
